@@ -318,7 +318,8 @@ Proof. intros H1 H2. destruct v; try reflexivity; [elim (H1 items)|elim (H2 fiel
 Lemma wf_field_inv2 E i fl f : wf_field E i fl f = true ->
   arr_items_eq (f2_w f) (f2_r f) = true /\ (f2_tag f = None -> f2_w f = f2_r f).
 Proof.
-  unfold wf_field. intros H. apply andb_true_iff in H. destruct H as [H Ha]. split; [exact Ha|].
+  unfold wf_field. intros H. apply andb_true_iff in H. destruct H as [H Ha].
+  apply andb_true_iff in Ha. destruct Ha as [Ha _]. split; [exact Ha|].
   unfold wf_field0 in H. apply andb_true_iff in H. destruct H as [_ H].
   intros Ht. rewrite Ht in H. apply codec_eqb_eq'. exact H.
 Qed.
